@@ -28,6 +28,8 @@ package casket
 //@   loop 4 invariant inOuter() && storOK()
 
 //@ unit lifecycle frames=on props=C16,C08 filter=`casket\.startWithListenerFds$|casket\.startWithListenerFds\$1$|Instance\)\.ShutdownCallbacks$`
+//@ // representation invariant of the instance list: every entry is a live *Instance (assumed at entry, re-established at every exit that changed state)
+//@ invariant forall(k, 0, len(instances), instances[k] != nil)
 //@ func checkFdlimit
 //@ func IsLoopback
 //@   pure
@@ -64,6 +66,9 @@ package casket
 //@   ensures [lock_balance] held(instancesMu) == old(held(instancesMu))
 //@   ensures [removes_one_on_failure] err != nil ==> len(instances) == old(len(instances)) - 1
 //@   ensures [keeps_on_success] err == nil ==> instances == old(instances)
+//@   requires forall(k, 0, len(instances), instances[k] != nil)
+//@   ensures [entries_stay_live] forall(k, 0, len(instances), instances[k] != nil)
+//@   loop 1 invariant forall(k, 0, len(instances), instances[k] != nil)
 //@   loop 1 invariant 0 <= #i && #i <= len(instances) && instances == old(instances) && forall(k, 0, #i, instances[k] != inst) && held(instancesMu) == old(held(instancesMu)) + 1
 //@ func startWithListenerFds
 //@   requires inst != nil && nFirst == 0 && nStartup == 0 && serversStarted == 0
@@ -78,8 +83,10 @@ package casket
 //@   at call dynamic#2 do nStartup = nStartup + 1
 //@   at call startServers assert [all_startup_done] nStartup == len(inst.OnStartup)
 //@   ensures [success_means_started] result == nil ==> (serversStarted == 1 && nStartup == len(inst.OnStartup))
-//@   loop 1 invariant 0 <= #i && nFirst == #i && nStartup == 0 && serversStarted == 0
-//@   loop 2 invariant 0 <= #i && #i <= len(inst.OnStartup) && nStartup == #i && serversStarted == 0
+//@   loop 1 invariant 0 <= #i && nFirst == #i && nStartup == 0 && serversStarted == 0 && forall(k, 0, len(instances), instances[k] != nil)
+//@   loop 2 invariant 0 <= #i && #i <= len(inst.OnStartup) && nStartup == #i && serversStarted == 0 && forall(k, 0, len(instances), instances[k] != nil)
+//@   loop 3 invariant forall(k, 0, len(instances), instances[k] != nil)
+//@   loop 4 invariant forall(k, 0, len(instances), instances[k] != nil)
 
 //@ unit start_servers frames=on props=C08 filter=`casket\.startServers$`
 //@ ghost opened int
@@ -224,6 +231,8 @@ package casket
 //@   loop 1 invariant [hooks_intact_between_signals] hooksPurged == 0
 
 //@ unit instance_stop frames=on props=C16,C08 filter=`casket\.Instance\)\.Stop$`
+//@ // representation invariant of the instance list: every entry is a live *Instance (assumed at entry, re-established at every exit that changed state)
+//@ invariant forall(k, 0, len(instances), instances[k] != nil)
 //@ // Stop stops every server, takes the instance off the list under the lock, and reports no error (a server that fails
 //@ // to stop is logged): Restart treats an error from it as a failed reload although the successor is already live.
 //@ func (*Instance).Stop
@@ -231,6 +240,7 @@ package casket
 //@   modifies G:github.com/tmpim/casket.instances, E:*github.com/tmpim/casket.Instance, ghost:held
 //@   ensures [stop_reports_no_error] result == nil
 //@   ensures [lock_balance] held(instancesMu) == old(held(instancesMu))
+//@   loop 2 invariant forall(k, 0, len(instances), instances[k] != nil)
 
 //@ unit internal_hosts frames=on props=C15 filter=`casket\.IsInternal$`
 //@ // "managed HTTPS exactly when the host qualifies": a host under one of the reserved suffixes .example, .invalid, .test,
@@ -306,6 +316,8 @@ package casket
 //@ func checkFdlimit
 
 //@ unit lifecycle_helpers frames=on props=C08,C16,C15 verify_pure=on nilchecks=on filter=`casket\.(IsLoopback|IsUpgrade|cloneEventHooks|getCurrentCasketfile)$`
+//@ // representation invariant of the instance list: every entry is a live *Instance (assumed at entry, re-established at every exit that changed state)
+//@ invariant forall(k, 0, len(instances), instances[k] != nil)
 //@ // helpers that the lifecycle units assume through thin contracts: proved against exactly those contracts here
 //@ use @verif/specs/stdlib.spec:stdlib
 //@ extern net.SplitHostPort
